@@ -253,6 +253,131 @@ def terminate_histories(rng):
     return out
 
 
+# ---------------------------------------------------------------- many instances alive at once, destroyed in every order
+# The property quantifies over histories "on one or several instances"; the random histories have one or two.  Here 1..8 (thorough: ..12)
+# instances live in the process at the same time, each with its own user data, its own global and (every other one) its own config class.
+# They are destroyed one by one in a systematic set of orders - every permutation up to four instances; beyond that: creation order, reverse
+# order, each single instance first, inside-out, random permutations - and after EVERY destroy every survivor is used: sqfvm_status (0), a call
+# that logs and increments its global (0, the value that instance had, under the user data of that instance and the call data of that
+# call), now and then an isClass probe of its own and of a neighbour's config class, a load_config, an invalid handle (-1).  Variants create
+# further instances after a destroy (the allocator hands the freed block out again) and keep some instances alive to the end of the process.
+# Oracle: the documented contract (codes by class, status 0, user / call data of every record) and ApiDefs.step - the Coq model keeps the
+# instances in a list of any length, so every return code and every record of these histories is compared with the extracted model.
+def _perms(n):
+    import itertools
+    return [list(p) for p in itertools.permutations(range(n))]
+
+
+def fleet_orders(rng, n, thorough):
+    """destroy orders for n instances: (name, order); an order may leave instances alive"""
+    if n <= (5 if thorough else 4):
+        return [("perm", p) for p in _perms(n)]
+    asc = list(range(n))
+    out = [("creation-order", asc), ("reverse-order", asc[::-1])]
+    for j in range(n):
+        out.append(("first-%d-then-rest" % j, [j] + [x for x in asc if x != j]))
+        if thorough:
+            out.append(("first-%d-then-reverse" % j, [j] + [x for x in asc[::-1] if x != j]))
+    mid = sorted(asc, key=lambda x: (abs(2 * x - (n - 1)), x))
+    out += [("inside-out", mid), ("outside-in", mid[::-1])]
+    for _ in range(6 if thorough else 2):
+        p = asc[:]; rng.shuffle(p); out.append(("random", p))
+    return out
+
+
+def fleet_history(rng, n, order, variant):
+    """n instances created up front (variant 'staggered': the second half is created after the first destroy), globals set, then the destroys of
+    `order`, each followed by a sweep over every survivor.  variant 'recreate': a new instance is created after every second destroy.
+    variant 'keep': the last two of the order stay alive (the process ends with live instances)."""
+    h = Hist()
+    user = {}
+    glob = {}
+    cfg = {}
+    live = []
+    cd = [100]
+
+    def create():
+        i = len(user)
+        user[i] = 11 + 7 * i
+        h.add(op="C", user=user[i], mr=0)
+        glob[i] = 100 + 10 * i
+        cd[0] += 1
+        h.add(op="K", h=str(i), cd=cd[0], ty="s", prog=Prog(Asg("ga", N(glob[i])), E(Un("diag_log", Arr(Var("ga"))))), cls="ok")
+        if i % 2 == 1:
+            cfg[i] = "VerifF%d" % i
+            h.add(op="L", h=str(i), text=("class %s { x = %d; };" % (cfg[i], i)).encode(), cls="ok", classes=[cfg[i]])
+        live.append(i)
+        return i
+
+    def sweep():
+        ids = live[:]
+        if rng.random() < 0.5:
+            ids.reverse()
+        for i in ids:
+            h.add(op="S", h=str(i))
+            cd[0] += 1
+            h.add(op="K", h=str(i), cd=cd[0], ty="s", prog=Prog(E(Un("diag_log", Arr(Var("ga")))), Asg("ga", Bin("+", Var("ga"), N(1)))), cls="ok")
+            r = rng.random()
+            if r < 0.25:
+                cd[0] += 1
+                names = [cfg[i]] if i in cfg else []
+                names += [c for j, c in cfg.items() if j != i][:1] + ["Missing"]
+                h.add(op="P", h=str(i), cd=cd[0], name=rng.choice(names))
+            elif r < 0.35:
+                t, cl = rng.choice(CFG_OK[:2]); h.add(op="L", h=str(i), text=t, cls="ok", classes=cl)
+            elif r < 0.45:
+                h.add(op="S", h=rng.choice(["N", "B", "X"]))
+            elif r < 0.55:
+                cd[0] += 1
+                h.add(op="K", h=str(i), cd=cd[0], ty=rng.choice(["p", "1", "x"]), text=b"ga", cls="ok")
+            elif r < 0.62:
+                cd[0] += 1
+                h.add(op="K", h=str(i), cd=cd[0], ty="s", text=rng.choice(PARSE_FAIL[:4]), cls="parsefail")
+
+    first = n if variant != "staggered" else max(1, n // 2)
+    for _ in range(first):
+        create()
+    todo = list(order)
+    if variant == "keep":
+        todo = todo[:-2] if len(todo) > 2 else todo[:1]
+    ndestroyed = 0
+    pending = n - first
+    while todo:
+        j = todo[0]
+        if j not in live:
+            # staggered: the instance is not created yet
+            create(); pending -= 1
+            continue
+        todo.pop(0)
+        h.add(op="D", h=str(j)); live.remove(j); ndestroyed += 1
+        sweep()
+        if pending > 0:
+            create(); pending -= 1
+            sweep()
+        elif variant == "recreate" and ndestroyed % 2 == 1 and len(user) < n + 4:
+            k = create()
+            todo.insert(rng.randint(0, len(todo)), k)
+            sweep()
+    return h
+
+
+def fleet_histories(rng, thorough):
+    out = []
+    sizes = list(range(1, 13)) if thorough else [1, 2, 3, 4, 5, 6, 8]
+    for n in sizes:
+        for nm, order in fleet_orders(rng, n, thorough):
+            out.append(("fleet:%d:%s:%s" % (n, nm, "".join("%x" % x for x in order)), fleet_history(rng, n, order, "plain")))
+    for n in ([2, 3, 4, 5, 6, 7, 9] if thorough else [3, 4, 6, 7]):
+        for variant in ("recreate", "staggered", "keep"):
+            orders = fleet_orders(rng, n, thorough)
+            keepn = len(orders) if (thorough or n <= 3) else 5
+            if len(orders) > keepn:
+                orders = rng.sample(orders, keepn)
+            for nm, order in orders:
+                out.append(("fleet-%s:%d:%s:%s" % (variant, n, nm, "".join("%x" % x for x in order)), fleet_history(rng, n, order, variant)))
+    return out
+
+
 # ---------------------------------------------------------------- API calls made from inside the log callback
 def reentrant_family(run, rng, hapi, bdir, thorough, only=None):
     """Implementation only.  A host may call the API from its log callback.  While a call of an instance runs, a nested sqfvm_call on the SAME
@@ -323,6 +448,178 @@ def reentrant_family(run, rng, hapi, bdir, thorough, only=None):
             why = "the next call did not run and deliver its value under its own call data: " + parts[5][:120]
         if why:
             run.violation("C API contract broken around a call made from inside the log callback (%s at record %d of the outer call): %s" % (c["kind"][10:], c["nested_at_record"], why), rep)
+    return n
+
+
+# ---------------------------------------------------------------- ... at a record that arrives BEFORE anything executes
+FINDING_NESTED_PRE = "nested-call-before-execution"
+# (type of the sqfvm_call or L = sqfvm_load_config, text, what its front end reports): every text makes the preprocessor and / or the parser deliver
+# at least one record before execution starts (or although nothing is executed at all); while they work the runtime state is still `empty`
+PRE_OUTERS = [
+    ("s", '#define VERIF_A 1\n#define VERIF_A 2\ndiag_log "a"; diag_log VERIF_A; 7', "preprocessor warning (macro defined twice), then a run"),
+    ("s", '#define VERIF_A 1\n#define VERIF_A 2\n#undef VERIF_NOPE\n#pragma verif_x\ndiag_log "a"; 7', "three preprocessor warnings, then a run"),
+    ("s", '#define VERIF_F(a) a\ndiag_log "a"; VERIF_F(); 7', "preprocessor warning from inside a macro call (empty argument)"),
+    ("s", 'diag_log "a"; 99999999999999999999999999999999999999999999999; 7', "parser warning (number out of range), then a run"),
+    ("s", '#define VERIF_A 1\n#define VERIF_A 2\ndiag_log "a"; 0xFFFFFFFFFFFFFFFFFFFFFF; [1] select 5; diag_log "c"', "preprocessor warning, parser warning, then a run that fails (-6)"),
+    ("s", '#define VERIF_A 1\n#define VERIF_A 2\n#bogus\n1', "warning, then the error that makes preprocessing fail (-2)"),
+    ("s", '#include "verif_nope.sqf"\ndiag_log "a"; 7', "trace records of the file lookup, then the error of the failed #include (-2)"),
+    ("s", '#define VERIF_A 1\n#define VERIF_A 2\ndiag_log 1; ) +* (', "preprocessor warning, then the parse error (-3)"),
+    ("p", '#define VERIF_A 1\n#define VERIF_A 2\nx VERIF_A y', "warning, then the RESULT record of a preprocess-only call"),
+    ("1", '#define VERIF_A 1\n#define VERIF_A 2\ndiag_log VERIF_A', "warning of a parse-only call"),
+    ("1", 'diag_log 1; )', "parse error of a parse-only call (-3)"),
+    ("x", '#define VERIF_A 1\n#define VERIF_A 2\n1', "warning, then unknown type (-5)"),
+    ("a", '#define VERIF_A 1\n#define VERIF_A 2\n', "warning, then the assembly front end on an empty text"),
+    ("L", '#define VERIF_A 1\n#define VERIF_A 2\nclass VerifQ { x = VERIF_A; };', "load_config: preprocessor warning"),
+    ("L", '#define VERIF_A 1\n#define VERIF_A 2\nclass VerifQ { x = ; };', "load_config: warning, then the parse error (-3)"),
+    ("L", '#bogus\nclass VerifQ {};', "load_config: preprocessing fails (-2)"),
+]
+
+
+def reentrant_pre_family(run, rng, hapi, bdir, thorough, only=None):
+    """Implementation only, same observation as reentrant_family (harness op W).  The nested API call is issued at a record the FRONT END of the outer
+    call delivers: a preprocessor warning / error / trace record, a parser warning / error, the RESULT record of a preprocess-only call - every record
+    index of the outer call up to and including the first one that belongs to the run.  From the property: every record of the outer call (those before
+    and those after the nested call) carries the call data of the outer call (NULL for sqfvm_load_config) and, call data aside, the outer call delivers
+    exactly what it delivers with no nested call; it returns the code its text alone returns (metamorphic: the same history without the nested call);
+    the instance is idle afterwards and the next call delivers its value.  The nested sqfvm_call on the instance whose call is in progress is either
+    refused (-4, nothing delivered) or, if it is let in while nothing executes yet, a complete call of its own: documented code, all of its records
+    between the record that triggered it and its return, under its own call data - never a mixture; at a record of the run it is refused (-4).
+    sqfvm_load_config and calls on another instance do their work under their own tags."""
+    hx = V.hx
+    def K(h, cd, text, ty="s"):
+        return "K%s:%d:%s:%s:-" % (h, cd, hx(ty), hx(text))
+    def OUT(ty, text, cd):
+        return ("L0:%s:-" % hx(text)) if ty == "L" else K("0", cd, text, ty)
+    nested = [("call-same", lambda: K("0", 22, 'diag_log "n"; 1'), 0, ["M<n>", "M<VALUE 1>"]),
+              ("call-same-pponly", lambda: K("0", 22, "x", "p"), 0, None),
+              ("call-same-warning", lambda: K("0", 22, '#define VERIF_N 1\n#define VERIF_N 2\ndiag_log "n"; 1'), 0, ["M<n>", "M<VALUE 1>"]),
+              ("call-same-failing", lambda: K("0", 22, "1 +"), -3, None),
+              ("status-same", lambda: "S0", None, None),
+              ("load-same", lambda: "L0:%s:-" % hx("class A { x = %d; };" % rng.randint(1, 9)), 0, None),
+              ("load-same-failing", lambda: "L0:%s:-" % hx("class A { x = ; };"), -3, None),
+              ("call-other", lambda: K("1", 33, 'diag_log "n"; 1'), 0, ["M<n>", "M<VALUE 1>"]),
+              ("load-other", lambda: "L1:%s:-" % hx("class B { y = 2; };"), 0, None)]
+    ndict = {n[0]: n for n in nested}
+    tail = lambda cd: ["S0", K("0", cd + 1, "diag_log 1; 2"), "S0", "S1", "D0", "D1"]
+    strip = lambda r: ":".join(r.split(":", 2)[0:1] + r.split(":", 2)[2:3])
+    if only is not None:
+        outers = [(only["outer_type"], only["outer"], "")]
+    else:
+        outers = PRE_OUTERS
+    # 1. what the front end of each outer text delivers (implementation's own front end) and what the call delivers with no nested call
+    rc, pr, _ = V.run_lines_parallel([hapi, "probe"], ["%s\t%s" % (hx(t), hx(x)) for t, x, _ in outers], timeout=3000)
+    rc, base, _ = V.run_lines_parallel([hapi, "api", bdir], ["0\t" + "\t".join(["C5:0", "C6:0", OUT(t, x, 41)] + tail(41)) for t, x, _ in outers], timeout=3000)
+    cases = []
+    for (ty, text, what), p, b in zip(outers, pr, base):
+        rep0 = {"kind": "reentrant-pre:baseline", "outer_type": ty, "outer": text, "probe": p[:200], "impl": b[:1500]}
+        f = p.split(" ")
+        cnt = lambda d: 0 if d in ("-", "") else len(d.split(","))
+        if f[0] == "PPFAIL":
+            npre, code = cnt(f[1]), -2
+        elif f[0] == "PARSEFAIL":
+            npre, code = cnt(f[1]) + cnt(f[2]), -3
+        elif f[0] == "OK":
+            npre, code = cnt(f[1]) + cnt(f[2]) + (1 if ty == "p" else 0), None
+        else:
+            run.violation("generator: the implementation's own front end did not survive an outer text of the callback family: " + p[:100] + " (machinery)",
+                          dict(rep0, broken="PRE_OUTERS of checks/C18.py"), found_input=False); continue
+        bp = b.split("|")
+        if len(bp) != 9 or "{" not in bp[2]:
+            run.violation("an API call crashed or did not return (text with front-end diagnostics, no nested call): " + b[:160], rep0); continue
+        bret, brecs = bp[2].split("{", 1)
+        brecs = [r for r in brecs.rstrip("}").split(",") if r]
+        if code is None:
+            code = {"x": -5}.get(ty, -6 if "select 5" in text else 0)
+        if int(bret) != code or len(brecs) < npre or npre < 1:
+            run.violation("%s returned %s with %d records for a text whose front end reports %s (documented code %d, at least %d records)" % (
+                "sqfvm_load_config" if ty == "L" else "sqfvm_call", bret, len(brecs), f[0], code, npre), rep0); continue
+        if only is not None:
+            ks = [only.get("nested_at_record", 0)]
+        elif thorough:
+            ks = list(range(min(npre + 1, len(brecs))))
+        else:
+            ks = sorted({0, npre - 1, rng.randrange(npre), min(npre, len(brecs) - 1)})
+        for nname, nop, nret, nmarks in (nested if only is None else [ndict[x] for x in [only["kind"].split(":", 1)[1]] if x in ndict]):
+            for k in ks:
+                cd = rng.randint(40, 90)
+                ops = ["C5:0", "C6:0", "W%d~%s" % (k, nop()), OUT(ty, text, cd)] + tail(cd)
+                cases.append({"kind": "reentrant-pre:" + nname, "outer_type": ty, "outer": text, "outer_reports": what, "nested_at_record": k,
+                              "records_before_execution": npre, "call_data": cd, "ops": ops, "expected_outer_return": code,
+                              "outer_records_without_nested_call": brecs})
+    rc, out, _ = V.run_lines_parallel([hapi, "api", bdir], ["0\t" + "\t".join(c["ops"]) for c in cases], timeout=3000)
+    n, let_in, refused = 0, 0, 0
+    for c, line in zip(cases, out):
+        n += 1
+        rep = dict(c, impl=line[:2000])
+        nname = c["kind"].split(":", 1)[1]
+        _, _, nret, nmarks = ndict[nname]
+        k, cd, ty = c["nested_at_record"], c["call_data"], c["outer_type"]
+        ocd = 0 if ty == "L" else cd
+        pre_exec = k < c["records_before_execution"]
+        parts = line.split("|")
+        if len(parts) != len(c["ops"]) or "{" not in parts[3]:
+            run.violation("an API call made from inside the log callback while the outer call preprocesses / parses crashed the host or did not return: " + line[:160], rep); continue
+        ret, recs = parts[3].split("{", 1)
+        recs = [r for r in recs.rstrip("}").split(",") if r]
+        ni = [j for j, r in enumerate(recs) if r.startswith("NEST=")]
+        why, tagging = None, None
+        if len(ni) != 1 or ni[0] < k + 1:
+            why = "the outer call did not deliver its record %d the way it does without a nested call (records: %s)" % (k, recs[:8])
+        else:
+            own, nest = recs[k + 1:ni[0]], recs[ni[0]]
+            outer = recs[:k + 1] + recs[ni[0] + 1:]
+            nr = int(nest[5:])
+            base_ = c["outer_records_without_nested_call"]
+            if int(ret) != c["expected_outer_return"]:
+                why = "the outer call returned %s, its text alone returns %d" % (ret, c["expected_outer_return"])
+            elif [strip(r) for r in outer] != [strip(r) for r in base_]:
+                why = "call data aside, the outer call delivered %s; with no nested call it delivers %s" % ([strip(r) for r in outer][:8], [strip(r) for r in base_][:8])
+            elif nname.startswith("call-same"):
+                if nr == -4:
+                    refused += 1
+                    if own:
+                        why = "a nested call that was refused (-4) delivered records: %s" % own[:4]
+                elif not pre_exec:
+                    why = "the nested call on the running instance returned %d, documented: -4" % nr
+                else:
+                    let_in += 1
+                    if nr != nret:
+                        why = "the nested call was let in and returned %d, its text alone returns %d" % (nr, nret)
+                    elif any(not r.startswith("5:22:") for r in own):
+                        why = "records of the nested call arrived with other call data than its own (22): %s" % [r for r in own if not r.startswith("5:22:")][:3]
+                    elif nmarks is not None and [r.split(":", 3)[3] for r in own if ":M<" in r] != nmarks:
+                        why = "the nested call was let in but delivered %s instead of %s" % ([r.split(":", 3)[3] for r in own if ":M<" in r], nmarks)
+            elif nname == "status-same":
+                if own:
+                    why = "sqfvm_status delivered records"
+            else:
+                tagn = "5:0:" if nname.startswith("load-same") else ("6:33:" if nname == "call-other" else "6:0:")
+                if nr != nret:
+                    why = "the nested %s returned %d, documented: %d" % (nname, nr, nret)
+                elif any(not r.startswith(tagn) for r in own):
+                    why = "records of the nested %s arrived with other user / call data than %s: %s" % (nname, tagn, [r for r in own if not r.startswith(tagn)][:3])
+                elif nmarks is not None and [r.split(":", 3)[3] for r in own if ":M<" in r] != nmarks:
+                    why = "the nested %s delivered %s instead of %s" % (nname, [r.split(":", 3)[3] for r in own if ":M<" in r], nmarks)
+            wrong = [r for r in outer if not r.startswith("5:%d:" % ocd)]
+            if why is None and wrong:
+                tagging = why = ("a record of the outer call arrived with other call data than that of its call (%d): %s - the nested call returned %d" % (ocd, wrong[:3], nr))
+        if why is None:
+            if parts[4] != "0{}" or parts[6] != "0{}" or parts[7] != "0{}":
+                why = "an instance is not idle after the call (sqfvm_status %s / %s / %s)" % (parts[4], parts[6], parts[7])
+            elif not parts[5].startswith("0{") or ("5:%d:3:M<VALUE 2>" % (cd + 1)) not in parts[5] or any(not r.startswith("5:%d:" % (cd + 1)) for r in parts[5][2:-1].split(",")):
+                why = "the next call did not run and deliver its value under its own call data: " + parts[5][:160]
+        if why:
+            if (tagging and nname.startswith("call-same") and pre_exec and parts[4] == "0{}" and parts[6] == "0{}" and ("5:%d:3:M<VALUE 2>" % (cd + 1)) in parts[5]
+                    and run.known.has(PID, FINDING_NESTED_PRE)):
+                run.known_finding(FINDING_NESTED_PRE)      # exactly the recorded defect: the nested call is let in and leaves ITS call data to the rest of the outer call
+                continue
+            run.violation("C API contract broken around a call made from inside the log callback while the outer %s is still %s (%s at record %d of %d before execution; outer text: %s): %s" % (
+                "sqfvm_load_config" if ty == "L" else "sqfvm_call type '%s'" % ty, "preprocessing / parsing" if pre_exec else "running",
+                nname, k, c["records_before_execution"], c["outer_reports"], why), rep)
+    run.cov["reentrant_before_execution"] = {"cases": n, "outer_texts": len(outers), "nested_ops": [x[0] for x in nested],
+                                             "nested_call_on_same_instance_refused": refused, "nested_call_on_same_instance_let_in": let_in,
+                                             "judged": "implementation only: the same history without the nested call (records and code of the outer call), the tags of every record, "
+                                                       "status 0 and the value of the next call"}
     return n
 
 
@@ -443,7 +740,7 @@ def main(replay=None):
 
     hists = []
     rp_kind, rp_json = None, None
-    if replay and str(json.load(open(replay))["replay"].get("kind", "")).startswith("reentrant:"):
+    if replay and str(json.load(open(replay))["replay"].get("kind", "")).startswith(("reentrant:", "reentrant-pre:")):
         rp_json = json.load(open(replay))["replay"]; rp_kind = rp_json["kind"]; rp_json.pop("impl", None)
     elif replay:
         r = json.load(open(replay))["replay"]
@@ -474,6 +771,7 @@ def main(replay=None):
         hists += repeat_histories(rng, thorough)
         hists += evalfail_histories(rng, thorough)
         hists += terminate_histories(rng)
+        hists += fleet_histories(rng, thorough)
         for shape, ty_, text_, code_, pending_ in EVAL_SPAWN:
             h = Hist(); h.add(op="C", user=6, mr=0)
             h.add(op="K", h="0", cd=51, ty=ty_, text=text_, cls="evalspawn", shape=shape, code=code_)
@@ -768,6 +1066,11 @@ def main(replay=None):
 
     if not replay:
         run.cov["reentrant_cases"] = reentrant_family(run, rng, hapi, bdir, thorough)
+        run.cov["reentrant_cases"] += reentrant_pre_family(run, rng, hapi, bdir, thorough)
+    elif str(rp_kind).startswith("reentrant-pre:"):
+        for k_ in ("probe", "outer_records_without_nested_call", "ops"):
+            rp_json.pop(k_, None)
+        run.cov["reentrant_cases"] = reentrant_pre_family(run, rng, hapi, bdir, thorough, only=rp_json)
     elif str(rp_kind).startswith("reentrant:"):
         run.cov["reentrant_cases"] = reentrant_family(run, rng, hapi, bdir, thorough, only=rp_json)
     for p in problems:
@@ -779,9 +1082,18 @@ def main(replay=None):
                        "250 ms instance, empty text, length shorter than the buffer, embedded NUL / invalid UTF-8, every type character ('s','a','p','1', unknown), "
                        "config loads (ok/preprocess-failing/parse-failing) and isClass probes, NULL / zeroed / wrong-magic handles; per call the return code and the "
                        "callback records (user, call data, severity <= 3, diag_log / value text) vs the documented contract and vs ApiDefs.step (repaired) fed with the "
-                       "implementation's own front-end answers; distinct = (op, class, type, code, number of records)")
+                       "implementation's own front-end answers; distinct = (op, class, type, code, number of records).  Plus the fixed families of every run: multi-script calls, "
+                       "self-ending scripts, repeated texts, failing __EVAL in unexecuted texts, terminate, many instances alive at once destroyed in every order with every survivor used after "
+                       "every destroy (cov many_instances), API calls from inside the log callback at records of the run and at records before execution (cov reentrant_before_execution)")
     run.cov["eval_spawn_witnesses"] = {"shapes": [x[0] for x in EVAL_SPAWN], "leaked_into_the_next_call": evalspawn_leaks,
                                        "judged": "implementation only (the model's front ends cannot create contexts: it has no notion of this leak)"}
+    fl = [(kind, h) for kind, h, _, _ in meta if kind.startswith("fleet")]
+    run.cov["many_instances"] = {"histories": len(fl), "api_calls": sum(len(h.ops) for _, h in fl),
+                                 "most_instances_alive_at_once": max([sum(1 for o in h.ops if o["op"] == "C") for _, h in fl] or [0]),
+                                 "destroy_orders": sorted({k.split(":")[2] for k, _ in fl}),
+                                 "variants": sorted({k.split(":")[0] for k, _ in fl}),
+                                 "judged": "documented contract (code by class, status 0, user / call data of every record) and ApiDefs.step (the model's instance list has any length): "
+                                           "every return code and callback record of every survivor after every destroy"}
     run.cov["input_distribution"] = stats
     run.cov["samples"] = samples
     run.cov["trusted_base"] = ["Coq 8.16.1 kernel", "ExtrOcamlBasic extraction + ocaml/api_driver.ml", "harness/h_api.cpp (dlopen of the library, clock_gettime interposed through libstdc++)",
